@@ -22,7 +22,7 @@ for id in $IDS; do
   GOCOVERDIR="$COV/data/$id" VERIF_ROOT="$ROOT" "$COV/check" --tier "$TIER" "$id" 2>&1 | tail -1 | cut -c1-200
   go tool covdata textfmt -i="$COV/data/$id" -o "$COV/$id.txt" 2>/dev/null
 done
-dirs=$(ls -d "$COV"/data/* | paste -sd,),verif/mc/cmd/check
+dirs=$(ls -d "$COV"/data/* | paste -sd,)
 go tool covdata textfmt -i="$dirs" -o "$COV/all.txt"
 python3 "$ROOT/cover_report.py" "$COV/all.txt" "$ROOT/properties.jsonl" > "$COV/uncovered.txt"
 tail -30 "$COV/uncovered.txt"
